@@ -16,7 +16,7 @@ ASSUMPTIONS = ["libz3 for Int semantics of div/mod and relations", "mpz for the 
 
 
 def custom_run(tier, seed):
-    return hcommon.run_rc_property(ID, "h_mkterm", ["round"], tier, seed, 5000, 80000, extra_jobs=[["consts"]],
+    return hcommon.run_rc_property(ID, "h_mkterm", ["round"], tier, seed, 2500, 80000, extra_jobs=[["consts"]],
                                    note="part (a) enumerates its boundary pool completely; the rest is sampled")
 
 
